@@ -742,6 +742,40 @@ func (e *Engine) contentOf(st *state, v *Val) *Val {
 				}
 			}
 		}
+		if base.Op == "alloc" && (v.Args[1] == nil || isZero(v.Args[1])) && v.Args[2] != nil {
+			if c, ok := st.content["front:"+base.Key()]; ok {
+				if sc := stripCT(c); sc != nil && sc.Op == "call" && len(sc.Args) == 2 && affEq(sc.Args[1], v.Args[2]) {
+					return c
+				}
+			}
+		}
+		if base.Op == "alloc" && (v.Args[1] == nil || isZero(v.Args[1])) && v.Args[2] != nil {
+			// the front part of a local byte array nothing was ever stored into: that many zero bytes
+			if at, ok := st.allocT[base.ID]; ok {
+				if arr, ok := at.Underlying().(*types.Array); ok {
+					if eb, isB := arr.Elem().Underlying().(*types.Basic); isB && eb.Kind() == types.Uint8 {
+						touched := false
+						pfx := "slice(" + base.Key() + ","
+						for k := range st.content {
+							if k == base.Key() || strings.HasPrefix(k, pfx) || k == "front:"+base.Key() {
+								touched = true
+							}
+						}
+						for _, me := range st.mem {
+							if me.Addr != nil {
+								if r := addrRoot(me.Addr); r != nil && r.Key() == base.Key() {
+									touched = true
+								}
+							}
+						}
+						if !touched {
+							zero := mkConst(constant.MakeInt64(0), types.Typ[types.Uint8])
+							return &Val{Op: "call", Name: "bytes.Repeat", Args: []*Val{{Op: "arraylit", Args: []*Val{zero}}, v.Args[2]}, Type: v.Type}
+						}
+					}
+				}
+			}
+		}
 		if base.Op == "alloc" { // slice of a local array: collect elements
 			if at, ok := st.allocT[base.ID]; ok {
 				if arr, ok := at.Underlying().(*types.Array); ok && arr.Len() <= 16 && v.Args[1] == nil && v.Args[2] == nil {
@@ -2262,6 +2296,36 @@ func fillLoop(iters []*Arm, count *Val, lid int) (*Val, *Val) {
 		}
 		bulk, bulkW = true, stripCT(sl.Args[0])
 	}
+	// `var scratch [N]byte; for i := 0; i < n; i++ { scratch[i] = v }`: the first n bytes of a local array filled with one
+	// loop-invariant byte (n <= N is the index check's business): scratch[:n] then holds n copies of it
+	if S.Type != nil && S.Op == "alloc" && !bulk && !reads {
+		if pt, isP := S.Type.Underlying().(*types.Pointer); isP {
+			if arr, isArr := pt.Elem().Underlying().(*types.Array); isArr {
+				if eb, isB := arr.Elem().Underlying().(*types.Basic); isB && eb.Kind() == types.Uint8 && !store.Src.Contains(func(x *Val) bool { return isLV(x) || x.Op == "wire" || x.Op == "elem" }) {
+					a := affOf(idx)
+					var lv *Val
+					if !a.Top && len(a.Term) == 1 {
+						for k, c := range a.Term {
+							if c == 1 {
+								lv = a.Sym[k]
+							}
+						}
+					}
+					if lv != nil && isLV(lv) && len(lv.Args) == 1 {
+						if init, isC := lv.Args[0].Int64(); isC && init+a.C == 0 {
+							if next := iters[0].Next[lv.Name]; next != nil {
+								if k, ok := affOf(next).Add(affOf(lv), -1).IsConst(); ok && k == 1 {
+									bt := types.NewSlice(arr.Elem())
+									front := &Val{Op: "slice", Args: []*Val{S, nil, count, nil}, Type: bt}
+									return front, &Val{Op: "call", Name: "bytes.Repeat", Args: []*Val{{Op: "arraylit", Args: []*Val{store.Src}}, count}, Type: bt}
+								}
+							}
+						}
+					}
+				}
+			}
+		}
+	}
 	if _, isSlice := S.Type.Underlying().(*types.Slice); S.Type == nil || !isSlice {
 		return nil, nil
 	}
@@ -3031,6 +3095,11 @@ func applyFill(nst *state, fillS, fillC *Val) {
 	}
 	if fillC.Op != "padfill" {
 		nst.content[fillS.Key()] = fillC
+		if fillS.Op == "slice" && len(fillS.Args) >= 3 && fillS.Args[1] == nil && fillS.Args[0].Op == "alloc" {
+			// the filled front part of a local array, also on record under the array (the bound may be spelt differently
+			// where the part is taken: `64 - len(s)` for `-len(s) + 64`)
+			nst.content["front:"+fillS.Args[0].Key()] = fillC
+		}
 		return
 	}
 	// the fill completes the field whose head was copied: the staged text segment now has its pad byte
